@@ -152,6 +152,37 @@ def judge_spelling(ctx, code, cc):
         except BaseException as e:
             ctx.violation('nop-compile-rejected', f'{spelling} rejected',
                           case, want.hex(), repr(e)[:100])
+    # NOPn must compile wherever a statement may stand (rotating placements)
+    cb = bytes([code, cc])
+    placements = [
+        (f'OP_PUSH1 x07 NOP{code} x{cc:02x} OP_TRUE', b'\x03\x01\x07' + cb + b'\x01'),
+        (f'OP_PUSH2 x0708 NOP{code} x{cc:02x}', b'\x04\x00\x02\x07\x08' + cb),
+        (f'push1 d1 x07 nop{code} x{cc:02x}', b'\x03\x01\x07' + cb),
+        (f'true if {{ NOP{code} x{cc:02x} }} NOP{code} x{cc:02x}',
+         b'\x01\x2b\x00\x02' + cb + cb),
+        (f'def 0 {{ push x01 NOP{code} x{cc:02x} }} call d0',
+         b'\x29\x00\x00\x04\x02\x01' + cb + b'\x2a\x00'),
+        (f'true if true NOP{code} x{cc:02x} end_if NOP{code} x{cc:02x}',
+         b'\x01\x2b\x00\x03\x01' + cb + cb),
+        (f'try {{ NOP{code} x{cc:02x} }} except {{ NOP{code} x{cc:02x} }}',
+         b'\x3d\x00\x02' + cb + b'\x00\x02' + cb),
+        (f'true loop {{ pop0 NOP{code} x{cc:02x} false }}',
+         b'\x01\x45\x00\x04\x06' + cb + b'\x00'),
+        (f'if ( NOP{code} x{cc:02x} ) {{ true }}', cb + b'\x2b\x00\x01\x01'),
+        (f'read_cache x6b NOP{code} x{cc:02x}', b'\x0a\x01\x6b' + cb),
+        (f'@k NOP{code} x{cc:02x} @#k', b'\x0a\x01\x6b' + cb + b'\x0b\x01\x6b'),
+        (f'swap d1 d2 NOP{code} x{cc:02x}', b'\x34\x01\x02' + cb),
+    ]
+    src2, want2 = placements[(code * 7 + cc) % len(placements)]
+    try:
+        b2 = parsing.compile_script(src2)
+        if b2 != want2:
+            ctx.violation('nop-compile-wrong', f'{src2} mis-assembled', case,
+                          want2.hex(), b2.hex())
+    except BaseException as e:
+        ctx.violation('nop-compile-rejected', f'{src2} rejected (a NOPn '
+                      'statement must compile wherever a statement may '
+                      'stand)', case, want2.hex(), repr(e)[:100])
     try:
         lines = parsing.decompile_script(want)
     except BaseException as e:
@@ -279,6 +310,16 @@ def judge_fork(ctx, rng, code, pred, nscripts):
         'alias1': f'push x01 push x01 {aliases[1].lower()} x02 true',
         'nop': f'push x01 push x01 NOP{code} d2 true',
     }
+    # the same script with the forked code right after an explicit-width push
+    # / inside blocks: fork spelling on the upgraded VM == NOPn spelling here
+    pairs = [
+        ('OP_PUSH1 x07 {} d1 OP_TRUE', b'\x03\x01\x07' + bytes([code, 1]) + b'\x01'),
+        ('OP_PUSH2 x0708 {} d1', b'\x04\x00\x02\x07\x08' + bytes([code, 1])),
+        ('true if {{ push x01 {} d1 }} true', b'\x01\x2b\x00\x04\x02\x01' + bytes([code, 1]) + b'\x01'),
+        ('def 0 {{ {} d0 }} call d0 true', b'\x29\x00\x00\x02' + bytes([code, 0]) + b'\x2a\x00\x01'),
+    ]
+    for k_, (tmpl, wantb) in enumerate(pairs):
+        sources[f'placed{k_}'] = tmpl.format(name)
     inp = {'code': code, 'pred': pred, 'name': name, 'aliases': aliases,
            'scripts': scripts, 'sources': sources}
     with tempfile.TemporaryDirectory(dir=os.path.join(
@@ -312,6 +353,20 @@ def judge_fork(ctx, rng, code, pred, nscripts):
                                            'label': label, 'src': sources[label]},
                           want_bytes.hex(), got.hex() if isinstance(got, bytes)
                           else got)
+    for k_, (tmpl, wantb) in enumerate(pairs):
+        ctx.evaluated()
+        up = out['compiled'].get(f'placed{k_}')
+        try:
+            plain_b = parsing.compile_script(tmpl.format(f'NOP{code}'))
+        except BaseException as e:
+            plain_b = 'ERR ' + repr(e)[:100]
+        if up != wantb or plain_b != wantb:
+            ctx.violation('fork-compile-differs', 'a script using the forked '
+                          'code compiles differently (or not at all) on one '
+                          'of the two VMs', {'kind': 'fork-compile', 'code':
+                                             code, 'label': f'placed{k_}',
+                                             'src': tmpl.format(name)},
+                          wantb.hex(), f'upgraded={up!r} plain={plain_b!r}'[:200])
     if out.get('recompiled') != b'\x01\x01' + bytes([code, 2]) or \
             not isinstance(out.get('decompiled'), list) or \
             not any(name in ln for ln in out['decompiled']):
